@@ -11,6 +11,7 @@ import (
 	"path/filepath"
 	"sort"
 	"strconv"
+	"strings"
 	"sync"
 	"time"
 )
@@ -139,10 +140,33 @@ func (r *Recorder) NumViolations() int {
 	return n
 }
 
+var knownKeys = func() map[string]bool {
+	m := map[string]bool{}
+	for _, k := range strings.Split(os.Getenv("VERIF_KNOWN_KEYS"), "\n") {
+		if k = strings.TrimSpace(k); k != "" {
+			m[k] = true
+		}
+	}
+	return m
+}()
+
+// numUnlistedViolations: violations whose key is not one of the listed known findings of the property.
+func (r *Recorder) numUnlistedViolations() int {
+	r.mu.Lock()
+	defer r.mu.Unlock()
+	n := 0
+	for k, c := range r.vioCount {
+		if !knownKeys[k] {
+			n += c
+		}
+	}
+	return n
+}
+
 // Enough reports that so many violations were recorded that continuing adds nothing
 // (a broken tree must not turn a bounded run into an unbounded one).
 func (r *Recorder) Enough() bool {
-	if r.NumViolations() >= 10 {
+	if r.numUnlistedViolations() >= 10 {
 		return true
 	}
 	r.mu.Lock()
